@@ -33,6 +33,9 @@ TOOLS = ("nvm", "genC")
 DIAG_TOOLS = ("diag_virt", "diag_nanoc")
 
 
+MODPATH_LINE = re.compile(r'^\s*(/\* Module: .*\(path: .*\*/|return ".*\.nano";)\s*$')
+
+
 def sha256(b):
     return hashlib.sha256(b).hexdigest()
 
@@ -129,9 +132,10 @@ class Runner:
         if os.path.exists(genc):
             os.remove(genc)
         try:
-            p = subprocess.run(cmd, cwd=cwd, env=env, stdout=subprocess.PIPE, stderr=subprocess.PIPE, timeout=300)
+            p = subprocess.run(cmd, cwd=cwd, env=env, stdout=subprocess.PIPE, stderr=subprocess.PIPE, timeout=120)
         except subprocess.TimeoutExpired:
-            raise InfraError("C19: %s timed out on %s" % (tool, name))
+            # a compiler that does not terminate is C09's business; here the program is dropped
+            return None, "%s did not terminate within 120 s" % tool
         if tool in DIAG_TOOLS:
             text = "rc=%d\n--stdout--\n%s--stderr--\n%s" % (p.returncode, p.stdout.decode(errors="replace"), p.stderr.decode(errors="replace"))
             data = self.normalise(text, w, src, cfg).encode()
@@ -148,6 +152,12 @@ class Runner:
         if not os.path.exists(keep):
             with open(keep, "wb") as f:
                 f.write(data)
+        if tool == "genC":
+            # second digest with the module-path lines masked: used only to keep watching a segment
+            # that is rejected because of the known finding F-genc-embeds-module-path
+            masked = b"\n".join(b"<module path line>" if MODPATH_LINE.match(l.decode(errors="replace")) else l
+                                for l in data.split(b"\n"))
+            return (h, sha256(masked)), None
         return h, None
 
 
@@ -166,7 +176,10 @@ def execute_program(runner, prog, walks):
                 idx += 1
                 if err:
                     return None, "%s: %s" % (tool, err), w
-                evs.append(dict(e="obs", act=s["act"], v=s["v"], cfg=s["cfg"], sha=h))
+                ev = dict(e="obs", act=s["act"], v=s["v"], cfg=s["cfg"], sha=h)
+                if isinstance(h, tuple):
+                    ev["sha"], ev["sha_masked"] = h
+                evs.append(ev)
         segs[tool] = evs
     return segs, None, w
 
@@ -211,9 +224,6 @@ def validate(ctx, segments, cfgname):
         if runs > 80:
             raise InfraError("C19: more than 40 rejected segments")
     return rejected, runs
-
-
-MODPATH_LINE = re.compile(r'^\s*(/\* Module: .*\(path: .*\*/|return ".*\.nano";)\s*$')
 
 
 def explain_genc_diff(a, b):
@@ -273,6 +283,7 @@ def run(ctx):
     rejected, tlc_runs = validate(ctx, segments, tr_cfg)
 
     segmap = dict(segments)
+    masked_segments = []
     for (pname, tool), at in rejected:
         evs = segmap[(pname, tool)]
         w = workdirs[pname]
@@ -294,12 +305,24 @@ def run(ctx):
             ctx.known(known["id"], "%s: %s, configuration %s vs %s: %s" % (
                 known.get("summary", ""), pname, json.dumps(first["cfg"]), json.dumps(badev["cfg"]), "; ".join(diff[:2])[:300]))
             cov.setdefault("known_segments", []).append([pname, tool])
+            masked_segments.append(((pname, "genC(module path lines masked)"),
+                                    [dict(e, sha=e["sha_masked"]) if e.get("e") == "obs" else e for e in evs]))
             continue
         art = dict(type="c19", prog=pname, tool=tool, events=evs, refused_event=at, first=first, refused=badev, diff=diff[:60])
         path = ctx.save_replay("c19-%s-%s.json" % (pname, tool), json.dumps(art, indent=1))
         ctx.violation("%s of %s is not a function of the source: configuration %s gives %s, %s gives %s; %s" % (
             tool, pname, json.dumps(first["cfg"]), first["sha"][:12], json.dumps(badev["cfg"]), badev["sha"][:12],
             " | ".join(diff[:3])[:400]), path)
+
+    # segments explained by the known finding stay under watch with the module-path lines masked
+    if masked_segments:
+        rej2, n2 = validate(ctx, masked_segments, tr_cfg)
+        tlc_runs += n2
+        for (pname, tool), at in rej2:
+            evs = dict(masked_segments)[(pname, tool)]
+            art = dict(type="c19", prog=pname, tool=tool, events=evs, refused_event=at, first=evs[1], refused=evs[min(at, len(evs) - 1)], diff=[])
+            path = ctx.save_replay("c19-%s-genC-masked.json" % pname, json.dumps(art, indent=1))
+            ctx.violation("generated C of %s differs across configurations beyond the module-path lines of F-genc-embeds-module-path" % pname, path)
 
     nobs = sum(len(e) - 1 for _, e in segments)
     distinct = len({(k[0], k[1], json.dumps(e["cfg"], sort_keys=True)) for k, evs in segments for e in evs[1:]})
